@@ -1,25 +1,30 @@
 #!/bin/bash
-# usage: seed_vet.sh <prop id, e.g. c01> <A|B> [extra check ids...]   - vets one seeded change and runs the checks against it
-id=$1; ab=$2; shift 2
-ID=$(echo $id | tr a-z A-Z)
-R=${SEED_ROUND:-}
-src=/tmp/seed${R}_${id}_out
-d=/var/tmp/mut${R}_${id}${ab}
-log=/var/tmp/vet${R}_${id}${ab}.log
+# usage: seed_vet.sh <seeded id, e.g. C04-A> [check ids... default: the property of the seeded change]
+#   re-vets one stored seeded change against the CURRENT /repo and the CURRENT checks, on a scratch copy outside /repo and /verif:
+#   patch applies (no fuzz), demo fails with it / passes without it, the repository's test suite still passes, then the quick checks.
+#   log: /var/tmp/vet_<id>.log ; nothing in /repo or in the committed evidence is touched (VERIF_REPO -> evidence_scratch/).
+#   SKIP_SUITE=1 skips the (slow) repository suite.
+sid=$1; shift
+S=/verif/seeded/$sid
+[ -f $S/patch.diff ] || { echo "no such seeded change: $sid"; exit 2; }
+prop=${sid%%-*}
+checks="$@"; [ -z "$checks" ] && checks=$prop
+d=/var/tmp/mut_$sid
+log=/var/tmp/vet_$sid.log
 rm -rf $d; mkdir -p $d
 cp -r /repo/development /repo/include /repo/tools /repo/test /repo/external $d/
-# the agent's diff was made against an older HEAD: /var/tmp/rebased_<id><AB>.diff is its 3-way merge onto the current one
-# (development/ part applied with git apply --3way, single header re-joined); it applies without fuzz
-pf=$src/mutant${ab}.diff; [ -f /var/tmp/rebased${R}_${id}${ab}.diff ] && pf=/var/tmp/rebased${R}_${id}${ab}.diff
-( cd $d && patch -p1 -s -F0 < $pf ) > $log 2>&1 || { echo "PATCH-FAILED" >> $log; exit 1; }
-echo "patch=$pf" >> $log
+( cd $d && patch -p1 -s -F0 < $S/patch.diff ) > $log 2>&1 || { echo "PATCH-FAILED (the stored patch no longer applies to /repo; 3-way merge it: git apply --3way --include='development/*', re-join)" >> $log; tail -1 $log; rm -rf $d; exit 1; }
 echo "== demo with change" >> $log
-g++ -std=c++14 -I$d/include $src/demo${ab}.cpp -o $d/demo_mut >> $log 2>&1 && ( $d/demo_mut > $d/demo_mut.out 2>&1; echo "demo_with_change_exit=$?" >> $log )
-g++ -std=c++14 -I/repo/include $src/demo${ab}.cpp -o $d/demo_orig >> $log 2>&1 && ( $d/demo_orig > $d/demo_orig.out 2>&1; echo "demo_without_change_exit=$?" >> $log )
-echo "== suite" >> $log
-/verif/tools_suite.sh $d 2>&1 | grep -v conda | tail -3 >> $log
-for c in $ID "$@"; do
+g++ -std=c++14 -w -I$d/include $S/demo.cpp -o $d/demo_mut >> $log 2>&1 && ( $d/demo_mut > $d/demo_mut.out 2>&1; echo "demo_with_change_exit=$?" >> $log )
+g++ -std=c++14 -w -I/repo/include $S/demo.cpp -o $d/demo_orig >> $log 2>&1 && ( $d/demo_orig > $d/demo_orig.out 2>&1; echo "demo_without_change_exit=$?" >> $log )
+if [ -z "$SKIP_SUITE" ]; then
+  echo "== suite" >> $log
+  /verif/tools_suite.sh $d 2>&1 | grep -v conda | tail -3 >> $log
+fi
+for c in $checks; do
   echo "== check $c quick" >> $log
-  ( cd /verif && VERIF_REPO=$d python3 vt.py $c --tier quick 2>&1 | grep -v conda | grep -v "^KNOWN" | tail -12 | cut -c1-400 ) >> $log
+  ( cd /verif && VERIF_REPO=$d python3 vt.py $c --tier quick 2>&1 | grep -v conda | grep -v "^KNOWN" | grep "VIOLATION\|^  \|quick:\|ENGINE" | head -12 | cut -c1-400 ) >> $log
 done
 echo "== done" >> $log
+rm -rf $d
+grep "demo_\|Status\|VIOLATION\|quick:" $log | cut -c1-200
